@@ -1,2 +1,35 @@
-(* C12 -- statement file; proofs in Sess/ *)
-From SV Require Import Sess.Model.
+(* C12 -- outgoing bytes are delivered exactly once, in order, however they are drained. *)
+From Coq Require Import ZArith List.
+From Coq.Strings Require Import Byte.
+From SV Require Import Base.Bytes Msg.Types Msg.Encode Sess.Model Sess.Drain.
+Import ListNotations.
+
+(* for every history of calls (sends, deliveries, drains of any amount incl. negative / None):
+   everything drained so far ++ what is still pending = the encodings of exactly the accepted
+   sends, in call order *)
+Theorem C12_exactly_once_in_order :
+  forall d r cs, let '(drained, sent, s') := ghost d (init r) cs in drained ++ s_out s' = sent.
+Proof. exact stream_from_init. Qed.
+
+Theorem C12_from_any_state :
+  forall d cs s, let '(drained, sent, s') := ghost d s cs in drained ++ s_out s' = s_out s ++ sent.
+Proof. exact stream_exactly_once. Qed.
+
+(* draining never affects protocol state *)
+Theorem C12_drain_is_pure_cut :
+  forall d s a s' o, step d s (Drain a) = (s', o) ->
+  s_state s' = s_state s /\ s_outstanding s' = s_outstanding s /\ s_searches s' = s_searches s /\
+  s_counter s' = s_counter s /\ s_in s' = s_in s /\ s_role s' = s_role s /\
+  o = ORetBytes (fst (py_cut a (s_out s))) /\ s_out s' = snd (py_cut a (s_out s)).
+Proof. exact drain_only_cuts. Qed.
+
+Theorem C12_cut_loses_nothing : forall a buf, fst (py_cut a buf) ++ snd (py_cut a buf) = buf.
+Proof. exact py_cut_app. Qed.
+
+Example C12_negative_amount : py_cut (Some (-1)%Z) [x01; x02; x03] = ([x01; x02], [x03]).
+Proof. reflexivity. Qed.
+
+Print Assumptions C12_exactly_once_in_order.
+Print Assumptions C12_from_any_state.
+Print Assumptions C12_drain_is_pure_cut.
+Print Assumptions C12_cut_loses_nothing.
